@@ -2,14 +2,17 @@
 package main
 
 import (
+	"context"
 	"fmt"
 	"strings"
 	"sync"
 	"time"
 
+	"github.com/theparanoids/crypki/proto"
 	"golang.org/x/crypto/ssh"
 	"golang.org/x/crypto/ssh/agent"
 
+	"github.com/theparanoids/ysshra/csr"
 	"github.com/theparanoids/ysshra/gensign"
 	"github.com/theparanoids/ysshra/verifharness/lib/ev"
 	"github.com/theparanoids/ysshra/verifharness/lib/gen"
@@ -32,6 +35,21 @@ func snapshot(ag *wire.Agent) map[string]ident {
 		m[string(k.Blob)] = ident{string(k.Blob), k.Comment, strings.Contains(k.Format, "cert")}
 	}
 	return m
+}
+
+// nestSigner runs hook once, just before the first signing request is passed on.
+type nestSigner struct {
+	inner *gsrig.Signer
+	hook  func()
+	done  bool
+}
+
+func (n *nestSigner) Sign(ctx context.Context, req *proto.SSHCertificateSigningRequest) ([]ssh.PublicKey, []string, error) {
+	if !n.done {
+		n.done = true
+		n.hook()
+	}
+	return n.inner.Sign(ctx, req)
 }
 
 type runRec struct {
@@ -155,7 +173,28 @@ func history(r *ev.Run, c *ev.Case, hi int) {
 		before := snapshot(ag)
 		rec.Before = len(before)
 		r.Eval(1)
-		runErr, escaped := gsrig.Run(gsrig.Param(gsrig.ParamSpec{LogName: "alice", ReqUser: "u", ReqHost: "h", ClientIP: "10.1.1.1", TransID: gen.Ident(rng, 10), Policy: "NONS"}), []gensign.Handler{rig.Handler}, signer)
+		// now and then another complete run for the same user finishes while this run is waiting for the CA:
+		// it is an earlier run by the time this one delivers, so its certificates must be gone afterwards
+		var useSigner csr.Signer = signer
+		var nestedCerts map[string]bool
+		if outcome == "ok" && rng.Intn(5) == 0 {
+			rec.Outcome = "ok+nested-run"
+			useSigner = &nestSigner{inner: signer, hook: func() {
+				rig2, e2 := gsrig.NewRig(ag, gc)
+				if e2 != nil {
+					return
+				}
+				defer rig2.Close()
+				s2 := &gsrig.Signer{Agent: ag, NCerts: 1 + rng.Intn(3)}
+				if e, esc := gsrig.Run(gsrig.Param(gsrig.ParamSpec{LogName: "alice", ReqUser: "u", ReqHost: "h", ClientIP: "10.1.1.1", TransID: gen.Ident(rng, 10), Policy: "NONS"}), []gensign.Handler{rig2.Handler}, s2); e == nil && esc == "" && len(s2.Calls) == 1 {
+					nestedCerts = map[string]bool{}
+					for _, pk := range s2.Calls[0].Certs {
+						nestedCerts[string(pk.Marshal())] = true
+					}
+				}
+			}}
+		}
+		runErr, escaped := gsrig.Run(gsrig.Param(gsrig.ParamSpec{LogName: "alice", ReqUser: "u", ReqHost: "h", ClientIP: "10.1.1.1", TransID: gen.Ident(rng, 10), Policy: "NONS"}), []gensign.Handler{rig.Handler}, useSigner)
 		ag.SetPlan(nil)
 		after := snapshot(ag)
 		rec.After, rec.Result = len(after), gsrig.Kind(runErr)
@@ -271,6 +310,15 @@ func history(r *ev.Run, c *ev.Case, hi int) {
 			r.Count("certificates that signed through the agent protocol", 1)
 		}
 		cl.Close()
+		for b := range nestedCerts {
+			if _, still := after[b]; still && !newGen[b] {
+				bad("earlier-generation-certificate-survives:run-completed-during-signing", fmt.Sprintf("run %d: a run that completed while this one was waiting for the CA left a certificate behind", run))
+				return
+			}
+		}
+		if nestedCerts != nil {
+			r.Count("runs during which another run for the same user completed", 1)
+		}
 		// at most one generation: certificates of earlier generations are gone
 		for b := range prevGen {
 			if _, still := after[b]; still && !newGen[b] {
